@@ -201,10 +201,13 @@ pub fn exec(_verb: &str, toks: &[&str]) -> String {
     let mut evals = String::new();
     let mut done = false;
     let mut panic_msg = String::new();
+    let mut cfg_dump = String::new();
     for l in stderr.lines() {
         if let Some(r) = l.strip_prefix("@@") {
             if r == "DONE" {
                 done = true;
+            } else if let Some(c) = r.strip_prefix("CFG ") {
+                cfg_dump = c.to_string();
             } else if let Some(e) = r.strip_prefix("E ") {
                 evals = e.split(' ').take_while(|_| true).collect::<Vec<_>>().join(":");
             } else {
@@ -222,9 +225,10 @@ pub fn exec(_verb: &str, toks: &[&str]) -> String {
     // Only slots that were used matter; drop the trailing zeros.
     let evals = evals.trim_end_matches(":0").to_string();
     format!(
-        "X{}{} O{} L{} E{}{}",
+        "X{}{} G{} O{} L{} E{}{}",
         code,
         if done { "" } else { "!" },
+        if cfg_dump.is_empty() { "-" } else { &cfg_dump },
         hex(&canon),
         if log.is_empty() { "-".to_string() } else { log.join(",") },
         if evals.is_empty() { "-" } else { &evals },
